@@ -22,8 +22,10 @@ CONSTANTS P, Max,     \* prefetch window and MaxRequestBodySize, in units
           DrainMax    \* what the loop is willing to discard after the handler (256 KiB = 64 units)
 
 Sizes == {0, 1, 3, 5, 80}             \* none, < P, > P and <= Max, > Max, > DrainMax (streaming only)
-Progs == {"none", "one", "allbutone", "all", "postbody"}
-\* handler programs: units read from RequestBodyStream() (0, 1, size-1, to EOF) or PostBody()
+Progs == {"none", "one", "allbutone", "all", "postbody", "timeout"}
+\* handler programs: units read from RequestBodyStream() (0, 1, size-1, to EOF) or PostBody();
+\* "timeout": the handler reads nothing and answers through ctx.TimeoutError (the serve loop then
+\* continues with a fresh ctx: the unread body is still this connection's problem)
 ExpectModes == {"noHandler", "expAccept", "expReject", "contAccept", "contReject"}
 
 Scenarios ==
@@ -39,7 +41,8 @@ Relevant(s) ==
   /\ (s.stream => s.prog # "postbody") /\ (~s.stream => s.prog = "postbody")
   /\ (s.size = 0 => (~s.expect /\ s.framing = "fixed" /\ s.prog \in {"none", "postbody"}))
   /\ (s.size = 1 => s.prog # "allbutone")
-  /\ (s.size = 80 => (s.stream /\ ~s.expect /\ s.prog \in {"none", "one", "all"}))
+  /\ (s.size = 80 => (s.stream /\ ~s.expect /\ s.prog \in {"none", "one", "all", "timeout"}))
+  /\ (s.prog = "timeout" => (s.stream /\ ~s.expect /\ s.size > 0))
 
 VARIABLES
   sc,        \* the scenario
@@ -111,7 +114,7 @@ ReadBodyPrefetch ==
   /\ UNCHANGED <<sc, onWire, sent100, dispatched, resps, closed, misparse>>
 
 \* units the handler program reads from the stream (counted from the start of the body)
-ProgUnits == CASE sc.prog = "none" -> 0 [] sc.prog = "one" -> 1
+ProgUnits == CASE sc.prog = "none" -> 0 [] sc.prog = "timeout" -> 0 [] sc.prog = "one" -> 1
                [] sc.prog = "allbutone" -> sc.size - 1
                [] sc.prog = "all" -> sc.size [] sc.prog = "postbody" -> sc.size
 MaxOf(a, b) == IF a >= b THEN a ELSE b
@@ -125,7 +128,7 @@ Handler ==
 
 Respond ==
   /\ phase = "respond"
-  /\ resps' = Append(resps, 200)
+  /\ resps' = Append(resps, IF sc.prog = "timeout" THEN 408 ELSE 200)
   /\ phase' = "after"
   /\ UNCHANGED <<sc, pos, onWire, sent100, dispatched, closed, misparse>>
 
